@@ -26,9 +26,9 @@ Section Den.
   Definition lin_den (l : lin) : R := numR (lcoef l) + terms_den (lterms l).
 End Den.
 
-Definition key_real (k : expr) : bool :=
+Fixpoint key_real (k : expr) : bool :=
   match k with
-  | EAdd c d => num_real c && forallb (fun p => num_real (snd p)) d
+  | EAdd c d => num_real c && forallb (fun p => num_real (snd p) && key_real (fst p)) d
   | _ => true
   end.
 (* every coefficient is an Integer or a Rational (also inside a key that is itself a sum) *)
